@@ -181,6 +181,8 @@ def make_array(np, rng, dt, raws, shape):
 # ---------------------------------------------------------------- one case
 
 def avg_region(dt, blk, f, got, want):
+    if dt == "uint64" and all(v < 2 ** 49 for v in blk if v.denominator == 1):
+        return None       # Downscale.avg_uint64_guard holds: proved exact (C07_avg_exact_on_guard)
     if dt == "uint64":
         q = sum(blk) / len(blk)
         if got == 0 and q >= 2 ** 64 - 1024:
@@ -190,6 +192,11 @@ def avg_region(dt, blk, f, got, want):
     if dt == "float32" and not pipeline_exact(blk, f):
         return "avg-float32-double-rounding"
     return None
+
+
+def base_method(method):
+    """'auto:image' -> average, 'auto:segmentation' -> stride (get_downscaler's "auto")"""
+    return {"auto:image": "average", "auto:segmentation": "stride"}.get(method, method)
 
 
 def run_case(R, np, method, dt, shape, f, outside, raws, mrep, sreps, record=True):
@@ -202,10 +209,17 @@ def run_case(R, np, method, dt, shape, f, outside, raws, mrep, sreps, record=Tru
             "outside": outside, "values": raws}
     arr, lay = make_array(np, rng, dt, raws, shape)
     before = K.from_array(np, arr)
+    call_method = method
+    method = base_method(method)
     opts = {"outside_value": outside} if method == "average" else {}
+    if method == "average" and outside is None and len(raws) % 2:
+        opts = {}                     # a missing option means edge padding, too
 
     def call():
-        ds = get_downscaler(method, options=opts)
+        if call_method.startswith("auto:"):
+            ds = get_downscaler("auto", info={"type": call_method[5:]}, options=opts)
+        else:
+            ds = get_downscaler(method, options=opts)
         with np.errstate(all="ignore"):
             res = ds.downscale(arr, tuple(f))
         return [res.dtype.name, list(res.shape), K.from_array(np, res)]
@@ -308,6 +322,7 @@ def run_case(R, np, method, dt, shape, f, outside, raws, mrep, sreps, record=Tru
 def model_requests(method, dt, shape, f, outside, raws):
     """(model request, [spec requests])"""
     from harness.common import Atom
+    method = base_method(method)
     if method == "average":
         ov = [] if outside is None else [K.f64_bits(float(outside))]
         req = ("average", [Atom(dt), ov, list(f), list(shape), raws])
@@ -333,7 +348,10 @@ def gen_cases(R):
         return (rng.randrange(1, 4), rng.choice(sizes), rng.choice(sizes), rng.choice(sizes))
 
     def small_shape():
-        return (rng.randrange(1, 3), rng.randrange(1, 6), rng.randrange(1, 6), rng.randrange(1, 6))
+        sh = [rng.randrange(1, 3), rng.randrange(1, 6), rng.randrange(1, 6), rng.randrange(1, 6)]
+        if rng.random() < 0.12:            # one long axis (10..33): more blocks per axis
+            sh[rng.randrange(1, 4)] = rng.randrange(10, 34)
+        return tuple(sh)
     n_avg = 1600 if quick else 40000
     n_sm = 700 if quick else 25000
     # averaging: all 8 factor triples x 5 dtypes x 5 outside values, cycling
@@ -374,6 +392,19 @@ def gen_cases(R):
             if dt == "float32":
                 raws = [0 if b == 0x80000000 else b for b in raws]
             cases.append((method, dt, sh, f, rng.choice(OUTSIDE) if method == "average" else None, raws, "badfactor"))
+    # get_downscaler("auto"): image -> average, segmentation -> stride
+    for k in range(40 if quick else 1500):
+        dt = NG[k % 5]
+        sh = small_shape()
+        n = sh[0] * sh[1] * sh[2] * sh[3]
+        if k % 2:
+            cases.append(("auto:image", dt, sh, [rng.choice([1, 2]) for _ in range(3)], rng.choice(OUTSIDE),
+                          gen_values(rng, dt, n, rng.choice(["edge", "halfway", "smallint"])), "auto"))
+        else:
+            raws = gen_values(rng, dt, n, "edge")
+            if dt == "float32":
+                raws = [0 if b == 0x80000000 else b for b in raws]
+            cases.append(("auto:segmentation", dt, sh, [rng.randrange(1, 4) for _ in range(3)], None, raws, "auto"))
     # the recorded witnesses of the findings
     cases.append(("average", "uint64", (1, 1, 1, 2), [2, 1, 1], None, [2 ** 64 - 1, 2 ** 64 - 1], "witness"))
     cases.append(("average", "uint64", (1, 1, 1, 2), [2, 1, 1], None, [2 ** 53 + 1, 2 ** 53 + 1], "witness"))
@@ -408,11 +439,19 @@ def run(R):
                 "values": raws[:32]}, nontrivial=nontriv)
         R.count(f"dtype:{method}:{dt}")
         R.count(f"values:{mode}")
-        R.count("factors:" + ",".join(map(str, f)) if method == "average" else f"factors:{method}")
-        R.count(f"outside:{ov}" if method == "average" else "outside:n/a")
+        R.count("factors:" + ",".join(map(str, f)) if base_method(method) == "average" else f"factors:{method}")
+        R.count(f"outside:{ov}" if base_method(method) == "average" else "outside:n/a")
         for d in sh[1:]:
             R.count("axis-size:" + ("1" if d == 1 else "odd" if d % 2 else "even"))
         R.traces += len(raws)
+    # the extracted guard of the uint64 averaging findings against the harness's predicate
+    u64 = [c for c in cases if base_method(c[0]) == "average" and c[1] == "uint64"]
+    from harness.common import Atom
+    greps = R.model.batch([("avg_guard", [Atom("uint64"), c[5]]) for c in u64])
+    for c, g in zip(u64, greps):
+        if (str(g) == "true") != all(v < 2 ** 49 for v in c[5]):
+            R.violation("extracted avg_uint64_guard and the harness's predicate disagree (harness self-check)",
+                        {"values": c[5][:8]}, {"extracted": str(g)})
     R.notes.append("majority/stride on float32 exchange an order-preserving integer key of the bit "
                    "pattern; -0.0 and NaN labels are not generated")
     R.notes.append("outside_value is passed as a Python float, as --outside-value type=float does")
